@@ -116,6 +116,8 @@ type Client struct {
 	clockGen atomic.Uint64
 	// one full sync at a time
 	syncLock sync.Mutex
+	// full syncs asked for by the update handlers and not finished yet
+	syncWanted atomic.Int32
 	// locks calling the server
 	callLock sync.Mutex
 	rpc      atomic.Pointer[rpc2.Client]
@@ -927,11 +929,25 @@ func (c *Client) clockSetGen(
 	return true
 }
 
+// syncAsync runs a full sync outside of the (blocking) read loop.
+func (c *Client) syncAsync() {
+	c.syncWanted.Add(1)
+	go func() {
+		defer c.syncWanted.Add(-1)
+		c.Sync()
+	}()
+}
+
 // clockUpdate tries to update the lock from a diff and returns false in case
 // of a clock drift
 func (c *Client) clockUpdate(update *MsgSrvUpdate, queueLocked bool) bool {
 	if c.Mach.Not1(ssC.HandshakeDone) {
 		return true
+	}
+	// the clock is known to be stale until the pending full sync lands, and the
+	// checksum is too weak to be trusted with a stale clock
+	if c.syncWanted.Load() > 0 {
+		return false
 	}
 
 	// may be locked by clockUpdateMutations
@@ -1263,9 +1279,9 @@ func (c *Client) RemoteUpdate(
 	}
 
 	// execute or fallback (the blocking read loop is running this handler, so
-	// the sync call has to be made from another goroutine)
+	// the sync call is made from another goroutine)
 	if !c.clockUpdate(update, false) {
-		go c.Sync()
+		c.syncAsync()
 	}
 
 	return nil
@@ -1283,9 +1299,9 @@ func (c *Client) RemoteUpdateMutations(
 	}
 
 	// execute or fallback (the blocking read loop is running this handler, so
-	// the sync call has to be made from another goroutine)
+	// the sync call is made from another goroutine)
 	if !c.clockUpdateMutations(updates) {
-		go c.Sync()
+		c.syncAsync()
 	}
 
 	return nil
